@@ -58,8 +58,17 @@ def main(argv=None):
             names = common.theorems_in(props_file)
             lean["theorems"] = common.axiom_audit(props_module, names)
             lean["stmt_hash"] = common.statement_hash(props_file)
+            # further theorem files of the same property (audited the same way)
+            extra = [f for f in getattr(mod, "EXTRA_PROPS_FILES", []) if os.path.exists(os.path.join(common.LEAN, f))]
+            if len(extra) != len(getattr(mod, "EXTRA_PROPS_FILES", [])):
+                raise common.LeanFailure("theorem file missing", str(getattr(mod, "EXTRA_PROPS_FILES", [])))
+            for f in extra:
+                m_ = f[:-5].replace("/", ".")
+                common.lake_build([m_])
+                lean["theorems"].update(common.axiom_audit(m_, common.theorems_in(f)))
+                lean["stmt_hash"] += "+" + common.statement_hash(f)
             if args.tier == "thorough":
-                lean["leanchecker"] = common.leanchecker([props_module])
+                lean["leanchecker"] = common.leanchecker([props_module] + [f[:-5].replace("/", ".") for f in extra])
     except common.LeanFailure as e:
         lean["failure"] = {"what": e.what, "log": (e.log or "")[-4000:]}
     ctx["lean"] = lean
